@@ -163,7 +163,7 @@ fn hvar_groups(font: &FontRef, n: u32) -> Vec<Vec<u32>> {
 /// subtables that the explicit advance mapping, walked in glyph order, visits out of order (`order[g % k]`). No font of
 /// the repository has more than two subtables, so the renumbering of three or more would never be exercised
 /// (seeded change C17-m4). `None` when the font has no usable HVAR or the re-encoding does not reproduce the advances.
-fn derive_hvar_multi(font: &FontRef, n: u32, order: &[u32]) -> Option<Vec<u8>> {
+fn derive_hvar_multi(font: &FontRef, n: u32, order: &[u32], with_lsb: bool) -> Option<Vec<u8>> {
     use write_fonts::from_obj::ToOwnedTable;
     use write_fonts::tables::hvar::Hvar;
     use write_fonts::tables::variations::{DeltaSetIndexMap, ItemVariationData, ItemVariationStore, VariationRegionList};
@@ -205,6 +205,22 @@ fn derive_hvar_multi(font: &FontRef, n: u32, order: &[u32]) -> Option<Vec<u8>> {
         entries.push((outer << 16) | rows[outer as usize].len() as u32);
         rows[outer as usize].push(row);
     }
+    // optional left-side-bearing mapping of its own: glyph g takes the advance row of glyph g+1 (arbitrary but fixed
+    // deltas; the derived font is its own original), stored as further rows visited in yet another order
+    let mut lsb_entries: Vec<u32> = vec![];
+    if with_lsb {
+        let adv_rows: Vec<Vec<i32>> = (0..n as usize)
+            .map(|g| {
+                let e = entries[(g + 1) % n as usize];
+                rows[(e >> 16) as usize][(e & 0xFFFF) as usize].clone()
+            })
+            .collect();
+        for (g, row) in adv_rows.into_iter().enumerate() {
+            let outer = order[(g + 1) % k];
+            lsb_entries.push((outer << 16) | rows[outer as usize].len() as u32);
+            rows[outer as usize].push(row);
+        }
+    }
     let subtables: Vec<Option<ItemVariationData>> = rows
         .iter()
         .map(|rs| {
@@ -222,7 +238,8 @@ fn derive_hvar_multi(font: &FontRef, n: u32, order: &[u32]) -> Option<Vec<u8>> {
             Some(ItemVariationData::new(rs.len() as u16, wdc, (0..r as u16).collect(), bytes))
         })
         .collect();
-    let new_hvar = Hvar::new(ItemVariationStore::new(regions, subtables), Some(DeltaSetIndexMap::from_iter(entries)), None, None);
+    let lsb_map = with_lsb.then(|| DeltaSetIndexMap::from_iter(lsb_entries));
+    let new_hvar = Hvar::new(ItemVariationStore::new(regions, subtables), Some(DeltaSetIndexMap::from_iter(entries)), lsb_map, None);
     let mut b = write_fonts::FontBuilder::new();
     b.add_table(&new_hvar).ok()?;
     b.copy_missing_tables(font.clone());
@@ -289,7 +306,7 @@ fn info_for(name: String, file: &str, data: &'static [u8], index: u32) -> Option
 }
 
 /// visiting orders of the derived multi-subtable HVAR fonts (name suffix, outer index of glyph `g` = order[g % len])
-const HVAR_ORDERS: [(&str, &[u32]); 2] = [("+hvar3", &[0, 2, 1]), ("+hvar4", &[3, 1, 0, 2])];
+const HVAR_ORDERS: [(&str, &[u32], bool); 3] = [("+hvar3", &[0, 2, 1], false), ("+hvar4", &[3, 1, 0, 2], false), ("+hvar3lsb", &[2, 0, 1], true)];
 
 fn load_fonts() -> Vec<FontInfo> {
     let mut out = vec![];
@@ -309,8 +326,8 @@ fn load_fonts() -> Vec<FontInfo> {
             out.push(info);
             if derive {
                 let Ok(font) = FontRef::from_index(data, index) else { continue };
-                for (suffix, order) in HVAR_ORDERS {
-                    if let Some(bytes) = derive_hvar_multi(&font, n, order) {
+                for (suffix, order, with_lsb) in HVAR_ORDERS {
+                    if let Some(bytes) = derive_hvar_multi(&font, n, order, with_lsb) {
                         let d: &'static [u8] = Box::leak(bytes.into_boxed_slice());
                         if let Some(di) = info_for(format!("{name}{suffix}"), &cf.name, d, 0) {
                             out.push(di);
